@@ -293,6 +293,8 @@ let sem_chain_all = sem_chain_gen ~all:true
    programs' predicates, and there must be one axiom per predicate of L and R. *)
 let sem_transition (e : Sexp.t) : Sexp.t =
   match e with
+  (* no problem was emitted (a right program without rules has no conjecture): nothing to judge *)
+  | L [ _; L [ A "none" ] ] -> L [ A "ok"; A "0" ]
   | L [ L [ l; r ]; th ] ->
     let l = program l and r = program r in
     let fs = theory th in
